@@ -552,6 +552,34 @@ func runC41(c *core.Ctx) {
 			}
 		}
 		c.Decide(okKeys && nKeys >= 2, "C41.threshold", fn, "the signer set of a proposal is keyed by committer / endorser id (distinct participants)", c.P.Rel(fn.Pos()), sprintf("%d insertion(s)", nKeys))
+		// each proposal has a signer set of its own: the set stored for a proposer is created for that store —
+		// from one such store the next one is not reachable without creating a new set (one set shared by all
+		// proposers would count the union of the signers of conflicting proposals)
+		okOwn, nSets := true, 0
+		for _, b := range fn.Blocks {
+			for _, in := range b.Instrs {
+				mu, ok := in.(*ssa.MapUpdate)
+				if !ok || signers == nil || ir.Strip(mu.Map) != signers {
+					continue
+				}
+				if _, isMap := mu.Value.Type().Underlying().(*types.Map); !isMap {
+					continue
+				}
+				nSets++
+				mk, isMk := ir.Strip(mu.Value).(*ssa.MakeMap)
+				if !isMk {
+					okOwn = false
+					continue
+				}
+				r := ir.NewReach(fn)
+				r.Barrier[mk] = true
+				r.Run(mu)
+				if r.Instr(mu) {
+					okOwn = false
+				}
+			}
+		}
+		c.Decide(okOwn && nSets >= 1, "C41.threshold", fn, "every proposal gets a signer set of its own (a fresh set per proposer)", c.P.Rel(fn.Pos()), sprintf("%d set installation(s)", nSets))
 	}
 
 	// ---------- seal
